@@ -511,10 +511,24 @@ class Exec(Engine):
                 for bo in bouts:
                     xouts = self.cm_exit(cm, fr.sub(st=bo.st), s, bo)
                     for xo in xouts:
-                        if xo.kind == "normal":
-                            res.append(Outcome(bo.kind, xo.st, val=bo.val, exc=bo.exc))
-                        else:
+                        if xo.kind != "normal":
                             res.append(xo)
+                        elif bo.kind == "raise" and xo.val is not None and xo.val.k != "none":
+                            # a truthy return value of __exit__ suppresses the exception of the body
+                            tv = z3.simplify(self.truth(xo.val, fr.sub(st=xo.st)))
+                            if z3.is_false(tv):
+                                res.append(Outcome(bo.kind, xo.st, val=bo.val, exc=bo.exc))
+                            elif z3.is_true(tv):
+                                res.append(Outcome("normal", xo.st))
+                            else:
+                                s2 = xo.st.fork()
+                                s2.assume(tv)
+                                xo.st.assume(z3.Not(tv))
+                                res.append(Outcome(bo.kind, xo.st, val=bo.val, exc=bo.exc))
+                                if self.feasible(s2):
+                                    res.append(Outcome("normal", s2))
+                        else:
+                            res.append(Outcome(bo.kind, xo.st, val=bo.val, exc=bo.exc))
         return res
 
     def cm_enter(self, cm, fr, s):
